@@ -148,6 +148,7 @@ func SamePtr(a, b interface{}) bool { return a == b }
 func IsSymbolic(x interface{}) bool { return false }
 func LibStaticWrites() int          { return 0 }
 func EndPath()                      { panic(zzEnd{}) }
+func WrotePrint() bool              { return false }
 func Concretize(x int) int          { return x }
 func ConcretizeByte(x byte) byte    { return x }
 
@@ -193,7 +194,7 @@ func zzRunCase(c *zzCase) (res *zzResult) {
 		}()
 		f()
 	}()
-	limit := 10 * time.Second
+	limit := 3 * time.Second
 	tick := time.NewTicker(50 * time.Millisecond)
 	defer tick.Stop()
 	deadline := time.After(limit)
